@@ -90,7 +90,7 @@ def describe(tier):
              'balanced braces, unicode, nbsp; not starting with `<`) in %d hosts %s. (b) E1: all lists of <= %d wrap lines from a '
              '%d-line menu %s x %d templates with an implicit repeater and %d without. (c) E1: all texts of <= %d units from %s in '
              '`q>x{T}+z` under %s: the lines of T (split at LF, CRLF, CR only) come out verbatim, one output line each. '
-             'Transition = one appended unit / line.' % (
+             'Every line list also: the same configuration object reused for a second call, and again after calls that fail while an alias is resolved. Transition = one appended unit / line.' % (
                  b['payload'], len(TEXT_UNITS), len(HOSTS), [h[0] for h in HOSTS], b['lines'], len(LINES), LINES,
                  len(IMPLICIT), len(PLAIN), b['multi'], ML_UNITS, ML_SYNTAXES),
         nontrivial='payload has >= 2 units / the list has >= 2 non-blank lines.',
